@@ -605,4 +605,26 @@ func privateTypeLifeCycle() {
 		dns.PrivateHandleRemove(code)
 		mention("removed")
 	}
+	// a private type whose mnemonic is ALSO a class mnemonic: while it is registered, records of that class (and
+	// of the others) must still print in a form that reads back to the same class
+	for _, name := range []string{"HS", "CH", "CS", "NONE", "IN"} {
+		dns.PrivateHandle(name, code, func() dns.PrivateRdata { return new(c05Priv) })
+		for _, class := range []uint16{1, 2, 3, 4, 254, 255, 5} {
+			for _, rr := range []dns.RR{
+				&dns.TXT{Hdr: dns.RR_Header{Name: "a.example.", Rrtype: dns.TypeTXT, Class: class, Ttl: 5}, Txt: []string{"x"}},
+				&dns.A{Hdr: dns.RR_Header{Name: "a.example.", Rrtype: dns.TypeA, Class: class, Ttl: 5}, A: []byte{192, 0, 2, 1}},
+			} {
+				stats["class_type_clash_checked"]++
+				txt := rr.String()
+				back, err := dns.NewRR(txt)
+				if class == 255 || class == 254 && err != nil {
+					continue // class ANY / NONE in text: recorded findings of their own (C05 .../class-ANY, class-NONE)
+				}
+				if err != nil || back == nil || back.Header().Class != class || back.Header().Rrtype != rr.Header().Rrtype {
+					Viol("C05/private-type/class-mnemonic-clash", fmt.Sprintf("with a private type registered as %q a class-%d record prints as %q, which is not read back to the same record (%v)", name, class, txt, err), map[string]string{"text": txt})
+				}
+			}
+		}
+		dns.PrivateHandleRemove(code)
+	}
 }
